@@ -29,7 +29,7 @@ EXPLANATION = (
     "value the branch conditions on the path admit (forward dataflow of constant upper bounds; a COPY_1 "
     "element reached with offset 2048 would need a twelfth offset bit); (8) carquet_zstd_compress / _decompress "
     "against a model of libzstd: OK exactly when the library finished the frame, the caller's extents handed "
-    "over unchanged, and no compression context that the wrapper keeps is left inside an unfinished frame. (8) LZ4 length extensions: every loop that emits 255-bytes while taking 255 off a counter runs exactly while the counter is >= 255 (so the byte after it is below 255), and every loop that adds length bytes reads on exactly after a 255 (R35). Decides these clauses, not "
+    "over unchanged, and no compression context that the wrapper keeps is left inside an unfinished frame. (8) LZ4 length extensions: every loop that emits 255-bytes while taking 255 off a counter runs exactly while the counter is >= 255 (so the byte after it is below 255), and every loop that adds length bytes reads on exactly after a 255 (R35). (9) the Snappy length preamble is LEB128 on both sides: writer and reader executed for every value on either side of a 7-bit boundary (R38). Decides these clauses, not "
     "the round trip nor sufficiency of the bound formulas.")
 
 SN = "src/compression/snappy.c"
